@@ -225,6 +225,20 @@ func (f *vFix) vDoUpload(t testing.TB, rng *vRand, u vUpload, web *vWeb) (acked 
 		key := vSha(append([]byte("ackey2"), u.data...))
 		_, err := f.ac.UpdateActionResult(ctx, &pb.UpdateActionResultRequest{ActionDigest: &pb.Digest{Hash: key, SizeBytes: 10}, ActionResult: ar})
 		return err == nil, vGRPCCode(err)
+	case "fetchBlobNoChecksum":
+		// no checksum qualifier, origin without Content-Length: the server learns size and digest only
+		// from the bytes it reads; its answer must name the digest of exactly what the origin served
+		uri := web.serve(u.logical, u.kind == "abort")
+		web.chunked[strings.TrimPrefix(uri, web.srv.URL)] = true
+		resp, err := f.asset.FetchBlob(ctx, &asset.FetchBlobRequest{Uris: []string{uri}})
+		if err != nil {
+			return false, vGRPCCode(err)
+		}
+		c := codes.Code(resp.GetStatus().GetCode())
+		if c == codes.OK && (resp.BlobDigest.GetHash() != u.declHash || resp.BlobDigest.GetSizeBytes() != u.declSize) {
+			return true, fmt.Sprintf("OK-other-digest %s/%d", resp.BlobDigest.GetHash()[:8], resp.BlobDigest.GetSizeBytes())
+		}
+		return c == codes.OK, c.String()
 	case "fetchBlob", "fetchBlobMirrorLast", "fetchBlobMirrorFirst":
 		raw, _ := hex.DecodeString(u.declHash)
 		uri := web.serve(u.logical, u.kind == "abort")
@@ -508,8 +522,8 @@ func TestVerifServerBlobLimits(t *testing.T) {
 	rng := vNewRand("srvlimit")
 	web := vNewWeb()
 	defer web.srv.Close()
-	paths := []string{"httpPut", "httpPutCL", "httpPutZstd", "batch", "batchZstd", "bsWrite", "bsWriteZstd", "acInline", "acInlineStdout", "fetchBlob", "fetchBlobMirrorLast", "fetchBlobMirrorFirst", "splice", "spliceNoDigest"}
-	rec.Set("rule", "max_blob_size in {1, 4096, 70000} x 14 write paths x both storage modes x logical size in {limit-1, limit, limit+1}, incompressible and compressible data")
+	paths := []string{"httpPut", "httpPutCL", "httpPutZstd", "batch", "batchZstd", "bsWrite", "bsWriteZstd", "acInline", "acInlineStdout", "fetchBlob", "fetchBlobMirrorLast", "fetchBlobMirrorFirst", "splice", "spliceNoDigest", "fetchBlobNoChecksum"}
+	rec.Set("rule", "max_blob_size in {1, 4096, 70000} x 15 write paths (FetchBlob also without a checksum qualifier from an origin without Content-Length) x both storage modes x logical size in {limit-1, limit, limit+1}, incompressible and compressible data")
 	for _, mode := range []string{"zstd", "uncompressed"} {
 		for _, limit := range []int{1, 4096, 70000} {
 			f := vNewFix(t, vFixOpts{mode: mode, maxBlob: int64(limit), validateAC: true})
